@@ -8,6 +8,7 @@ pub mod c06;
 pub mod c07;
 pub mod c19;
 pub mod linkfmt;
+pub mod observe;
 #[cfg(feature = "std")]
 pub mod c13;
 
@@ -21,6 +22,8 @@ pub fn dispatch(ctx: &Ctx, rep: &mut Report) -> bool {
         "C06" => c06::run(ctx, rep),
         "C07" => c07::run(ctx, rep),
         "C19" => c19::run(ctx, rep),
+        "C14" => observe::run(ctx, rep, observe::Which::C14),
+        "C15" => observe::run(ctx, rep, observe::Which::C15),
         "C16" => linkfmt::run_c16(ctx, rep),
         "C17" => linkfmt::run_c17(ctx, rep),
         "C18" => linkfmt::run_c18(ctx, rep),
